@@ -162,6 +162,25 @@ func candidates(c *Case) []*Case {
 		if f.Kind == KPString {
 			mod(j, func(f *Field, _ *Tok) { f.Kind = KString })
 		}
+		if f.Kind.stringy() || f.Kind == KBool {
+			// an int with the same options in its place, with a non-option / out-of-range / valid value
+			for _, l := range []string{"3", "100", "2"} {
+				l := l
+				mod(j, func(f *Field, t *Tok) {
+					f.Kind = KInt
+					if f.Def != "" {
+						f.Def = "3"
+					}
+					if t.T != "absent" && t.T != "null" {
+						if canonicalAsString(*f, dc) {
+							*t = tS(l)
+						} else {
+							*t = tN(l)
+						}
+					}
+				})
+			}
+		}
 		if f.Kind != KInt {
 			// a plain int in its place (keeping only optionality), with a valid value if one was supplied
 			mod(j, func(f *Field, t *Tok) {
